@@ -93,9 +93,17 @@ type scenario struct {
 	iters     int
 	mode      csproto.DecoderMode
 	maxBuffer int
+	// flat: the pool-focused scenario - inputs without nested messages, each iteration is Decode . read tag 1 . Close with
+	// as few scheduling points as possible, and the pool is warmed with two results before the threads start. Few points
+	// per iteration make a HIGHER preemption bound affordable: the windows inside a pool implementation (a lock-free
+	// free list, say: load head, load next, compare-and-swap) need three preemptions among three threads.
+	flat bool
 }
 
 func (s scenario) String() string {
+	if s.flat {
+		return fmt.Sprintf("pool-focused %dthr x %diter/%s/maxBuffer=%d", s.threads, s.iters, s.mode, s.maxBuffer)
+	}
 	return fmt.Sprintf("%dthr x %diter/%s/maxBuffer=%d", s.threads, s.iters, s.mode, s.maxBuffer)
 }
 
@@ -167,7 +175,98 @@ func read(t int, what string, r *lazyproto.DecodeResult, def lazyproto.Def, fiel
 // safeMode: the scenario being explored decodes in safe mode (set per scenario; one scenario runs at a time)
 var safeMode bool
 
+func mkFlatHarness(sc scenario) func() vsync.Harness {
+	safeMode = sc.mode == csproto.DecoderModeSafe
+	def := theDef()
+	flatInput := func(t, it int) []byte {
+		var b []byte
+		for k := 0; k <= (t+it)%3; k++ {
+			b = append(b, vi(1, uint64(1000*(t+1)+10*it+k))...)
+		}
+		return append(b, ln(3, []byte(fmt.Sprintf("flat-%d-%d", t, it)))...)
+	}
+	return func() vsync.Harness {
+		opts := []lazyproto.Option{lazyproto.WithMode(sc.mode)}
+		if sc.maxBuffer >= 0 {
+			opts = append(opts, lazyproto.WithMaxBufferSize(sc.maxBuffer))
+		}
+		dec, err := lazyproto.NewDecoder(def, opts...)
+		if err != nil {
+			panic(err)
+		}
+		// warm the pool: two results alive at once, then both closed
+		w1, e1 := dec.Decode(flatInput(7, 0))
+		w2, e2 := dec.Decode(flatInput(8, 0))
+		if e1 != nil || e2 != nil {
+			panic("warm-up decode failed")
+		}
+		_ = w1.Close()
+		_ = w2.Close()
+		ids := &objIDs{m: map[*lazyproto.DecodeResult]int{}}
+		got := make([][]int, sc.threads)
+		var bodies []func()
+		for t := 0; t < sc.threads; t++ {
+			t := t
+			bodies = append(bodies, func() {
+				defer func() {
+					if p := recover(); p != nil {
+						if fmt.Sprintf("%T", p) == "vsync.abortExec" {
+							panic(p)
+						}
+						vsync.Failf("panic", "T%d: %v | %s", t, p, shortStack())
+					}
+				}()
+				for it := 0; it < sc.iters; it++ {
+					// two results alive at once, closed in the order they were obtained (first the older one): more Get / Put
+					// traffic per thread, so that the windows of a pool implementation need fewer threads and preemptions
+					inA, inB := flatInput(t, 2*it), flatInput(t, 2*it+1)
+					fA, _ := lazyref.RefFields(inA)
+					fB, _ := lazyref.RefFields(inB)
+					vsync.Point("api:Decode")
+					resA, err := dec.Decode(append([]byte{}, inA...))
+					if err != nil || resA == nil {
+						vsync.Failf("decode-error", "T%d it%d: %v", t, it, err)
+						return
+					}
+					vsync.Point("api:Decode")
+					resB, err := dec.Decode(append([]byte{}, inB...))
+					if err != nil || resB == nil {
+						vsync.Failf("decode-error", "T%d it%d: %v", t, it, err)
+						return
+					}
+					if resA == resB {
+						vsync.Failf("isolation/same-object-handed-out-twice", "T%d it%d: two live results are the same object", t, it)
+						return
+					}
+					got[t] = append(got[t], ids.id(resA), ids.id(resB))
+					read(t, fmt.Sprintf("it%d a", it), resA, def, fA, []int{1})
+					vsync.Point("api:Close")
+					if err := resA.Close(); err != nil {
+						vsync.Failf("close-error", "%v", err)
+					}
+					read(t, fmt.Sprintf("it%d b", it), resB, def, fB, []int{1})
+					vsync.Point("api:Close")
+					if err := resB.Close(); err != nil {
+						vsync.Failf("close-error", "%v", err)
+					}
+				}
+			})
+		}
+		final := func() {
+			var parts []string
+			for t := range got {
+				parts = append(parts, fmt.Sprint(got[t]))
+			}
+			vsync.SetOutcome(strings.Join(parts, "|"))
+		}
+		return vsync.Harness{Threads: bodies, Final: final}
+	}
+}
+
 func mkHarness(sc scenario) func() vsync.Harness {
+	if sc.flat {
+		return mkFlatHarness(sc)
+	}
 	safeMode = sc.mode == csproto.DecoderModeSafe
 	def := theDef()
 	inputs := make([][][]byte, sc.threads)
@@ -320,13 +419,16 @@ func plans(thorough bool) []plan {
 		for _, mb := range []int{-1, 1} {
 			if thorough {
 				out = append(out,
-					plan{scenario{"2x2", 2, 2, m, mb}, 3, 2},
-					plan{scenario{"3x1", 3, 1, m, mb}, 3, 2},
-					plan{scenario{"3x2", 3, 2, m, mb}, 2, 1})
+					plan{scenario{"2x2", 2, 2, m, mb, false}, 3, 2},
+					plan{scenario{"3x1", 3, 1, m, mb, false}, 3, 2},
+					plan{scenario{"3x2", 3, 2, m, mb, false}, 2, 1})
 			} else {
 				out = append(out,
-					plan{scenario{"2x2", 2, 2, m, mb}, 2, 1},
-					plan{scenario{"3x1", 3, 1, m, mb}, 2, 1})
+					plan{scenario{"2x2", 2, 2, m, mb, false}, 2, 1},
+					plan{scenario{"3x1", 3, 1, m, mb, false}, 2, 1})
+			}
+			if mb == -1 {
+				out = append(out, plan{scenario{"pool2x2", 2, 2, m, mb, true}, 3, 1}, plan{scenario{"pool3x1", 3, 1, m, mb, true}, 2, 1})
 			}
 		}
 	}
@@ -456,8 +558,8 @@ func main() {
 		return s
 	}())
 	racePass(r)
-	r.Rule("controlled cooperative scheduler over the real lazyproto code (sync.Pool behind the shim): (inputs include a malformed nested element, two trailing EMPTY nested elements, and - offered first by the last thread - an outer input that is rejected after a valid prefix) threads share one Decoder, each iteration = Decode(own unique input) . read all . NestedResults . read nested (+ nested of nested) . [thread 0: Close every nested result] . Close; scheduling points = every Pool.Get/Put of every pool + every API-call boundary + between obtaining values and re-verifying them; DFS over thread choices (preemption-bounded) x pool answers (deviation-bounded), sharded over 16 processes on depth-2 subtrees. Oracle: every value a thread reads equals the reference parse of its own input, also after other threads ran; no panic, no deadlock. states/transitions = scheduling/choice points executed; traces = complete executions; distinct_nontrivial = executions in which some thread received an object recycled from the pool. distinct_object_assignment_outcomes/* count the distinct assignments of pooled objects to (thread, iteration) that were observed (shows that recycling really interleaved).")
-	r.Assume("unsynchronised accesses inside one API call are invisible to a cooperative scheduler; the free-running -race pass (sampling, key race_pass) complements but does not decide")
+	r.Rule("controlled cooperative scheduler over the real lazyproto code (sync.Pool behind the shim): (inputs include a malformed nested element, two trailing EMPTY nested elements, and - offered first by the last thread - an outer input that is rejected after a valid prefix) threads share one Decoder, each iteration = Decode(own unique input) . read all . NestedResults . read nested (+ nested of nested) . [thread 0: Close every nested result] . Close; plus the pool-focused scenarios (pool warmed with two results; each iteration holds TWO results at once and closes the older first; 2 threads x 2 iterations with preemptions <= 3, 3 threads x 1 iteration with <= 2); scheduling points = every Pool.Get/Put of every pool + every sync/atomic operation of lazyproto (redirected like sync, so that any atomic a change introduces is a scheduling point) + every API-call boundary + between obtaining values and re-verifying them; DFS over thread choices (preemption-bounded) x pool answers (deviation-bounded), sharded over 16 processes on depth-2 subtrees. Oracle: every value a thread reads equals the reference parse of its own input, also after other threads ran; no panic, no deadlock. states/transitions = scheduling/choice points executed; traces = complete executions; distinct_nontrivial = executions in which some thread received an object recycled from the pool. distinct_object_assignment_outcomes/* count the distinct assignments of pooled objects to (thread, iteration) that were observed (shows that recycling really interleaved).")
+	r.Assume("unsynchronised accesses inside one API call are invisible to a cooperative scheduler; the free-running -race pass and the free-running stress pass without the detector (both sampling, key race_pass) complement but do not decide")
 	r.Assume("more than 3 threads / 2 iterations and preemptions above the bound are outside the coverage statement")
 	r.Finish()
 }
@@ -511,6 +613,41 @@ func racePass(r *ev.Run) {
 		for _, l := range strings.Split(s, "\n") {
 			if strings.HasPrefix(l, "RACEPASS ") {
 				res["summary"] = l
+			}
+		}
+	}
+	// second free-running complement WITHOUT the race detector: millions of tiny Decode / read / Close rounds (the
+	// detector's instrumentation makes narrow atomic windows practically unreachable); sampling as well
+	scmd := exec.Command("go", "test", "-count=1", "-vet=off", "./checks/c15race", "-run", "TestStressPass", "-v", "-args", "-iters", iters)
+	scmd.Dir = ev.VerifDir() + "/mc"
+	scmd.Env = os.Environ()
+	sout, serr := scmd.CombinedOutput()
+	ss := string(sout)
+	switch {
+	case strings.Contains(ss, "ISOLATION-FAILURE"):
+		i := strings.Index(ss, "ISOLATION-FAILURE")
+		rep := ss[i:]
+		if len(rep) > 1500 {
+			rep = rep[:1500]
+		}
+		r.Fail("stress-pass/isolation", "free-running stress pass", map[string]any{"report": rep})
+		res["stress_result"] = "isolation failure"
+	case serr != nil:
+		tail := ss
+		if len(tail) > 1500 {
+			tail = tail[len(tail)-1500:]
+		}
+		if strings.Contains(ss, "panic:") || strings.Contains(ss, "fatal error:") {
+			r.Fail("stress-pass/panic", "free-running stress pass", map[string]any{"output": tail})
+		} else {
+			r.Internal("stress pass could not run: %v: %s", serr, tail)
+		}
+		res["stress_result"] = "error"
+	default:
+		res["stress_result"] = "no isolation failure"
+		for _, l := range strings.Split(ss, "\n") {
+			if strings.HasPrefix(l, "STRESSPASS ") {
+				res["stress_summary"] = l
 			}
 		}
 	}
